@@ -1,4 +1,361 @@
-import StrumModel
+import StrumProofs.C01
+/-
+C16 — use_phf is a pure optimisation of EnumString.
+
+Model (StrumModel/FromStr.lean, mirroring from_string.rs:121-170 after the F3 repair): with `use_phf`
+each spelling becomes a phf key; a case-insensitive variant also gets its ASCII-lower and ASCII-upper
+forms as keys (a key already inserted for the same variant is skipped) and keeps its guard arm;
+`from_str` looks the input up in the map first, then runs the ordinary match, then the fall-through.
+-/
 namespace Strum
-theorem c16_placeholder : True := trivial
+
+theorem asciiLower_idem (b : Nat) : asciiLower (asciiLower b) = asciiLower b := by
+  simp only [asciiLower, isUpper]
+  by_cases h : (65 ≤ b ∧ b ≤ 90)
+  · have h2 : ¬ (65 ≤ b + 32 ∧ b + 32 ≤ 90) := by omega
+    simp [h]; omega
+  · simp [h]
+
+theorem asciiLower_upper (b : Nat) : asciiLower (asciiUpper b) = asciiLower b := by
+  simp only [asciiLower, asciiUpper, isUpper, isLower]
+  by_cases h1 : (97 ≤ b ∧ b ≤ 122)
+  · have h2 : ¬ (65 ≤ b ∧ b ≤ 90) := by omega
+    have h3 : (65 ≤ b - 32 ∧ b - 32 ≤ 90) := by omega
+    simp [h1, h2, h3]; omega
+  · simp [h1]
+
+theorem eqI_lowerAll (sp : Bytes) : eqIgnoreAsciiCase (lowerAll sp) sp = true := by
+  rw [eqIgnoreAsciiCase_iff_map]; simp [lowerAll, asciiLower_idem]
+
+theorem eqI_upperAll (sp : Bytes) : eqIgnoreAsciiCase (upperAll sp) sp = true := by
+  rw [eqIgnoreAsciiCase_iff_map]; simp [upperAll, asciiLower_upper]
+
+theorem mem_pushKey (keys : List Bytes) (k x : Bytes) : x ∈ pushKey keys k ↔ x ∈ keys ∨ x = k := by
+  unfold pushKey
+  split
+  · next h => simp only [List.contains_iff_mem] at h; constructor
+              · exact Or.inl
+              · rintro (h' | rfl); exact h'; exact h
+  · simp
+
+theorem nodup_pushKey (keys : List Bytes) (k : Bytes) (h : keys.Nodup) : (pushKey keys k).Nodup := by
+  unfold pushKey
+  split
+  · exact h
+  · next hc =>
+    simp only [List.contains_iff_mem] at hc
+    rw [List.nodup_append]
+    exact ⟨h, by simp, by intro a ha b hb; simp at hb; subst hb; exact fun e => hc (e ▸ ha)⟩
+
+/-- one step of the key loop -/
+def keyStep (ci : Bool) (keys : List Bytes) (sp : Bytes) : List Bytes :=
+  let keys := pushKey keys sp
+  if ci then pushKey (pushKey keys (lowerAll sp)) (upperAll sp) else keys
+
+theorem phfKeysOfVariant_eq (d : EnumDef) (v : Variant) :
+    phfKeysOfVariant d v = (serializations d.style v).foldl (keyStep (d.ciOf v)) [] := rfl
+
+theorem mem_keyStep (ci : Bool) (keys : List Bytes) (sp x : Bytes) :
+    x ∈ keyStep ci keys sp ↔ x ∈ keys ∨ x = sp ∨ (ci = true ∧ (x = lowerAll sp ∨ x = upperAll sp)) := by
+  unfold keyStep
+  cases ci
+  · simp [mem_pushKey]
+  · simp only [↓reduceIte, mem_pushKey, true_and]
+    constructor
+    · rintro (((h | h) | h) | h)
+      · exact Or.inl h
+      · exact Or.inr (Or.inl h)
+      · exact Or.inr (Or.inr (Or.inl h))
+      · exact Or.inr (Or.inr (Or.inr h))
+    · rintro (h | h | h | h)
+      · exact Or.inl (Or.inl (Or.inl h))
+      · exact Or.inl (Or.inl (Or.inr h))
+      · exact Or.inl (Or.inr h)
+      · exact Or.inr h
+
+theorem mem_foldl_keyStep (ci : Bool) (l : List Bytes) (acc : List Bytes) (x : Bytes) :
+    x ∈ l.foldl (keyStep ci) acc ↔
+      x ∈ acc ∨ ∃ sp ∈ l, x = sp ∨ (ci = true ∧ (x = lowerAll sp ∨ x = upperAll sp)) := by
+  induction l generalizing acc with
+  | nil => simp
+  | cons a as ih =>
+    simp only [List.foldl_cons, ih, mem_keyStep, List.mem_cons, exists_eq_or_imp]
+    constructor
+    · rintro ((h | h) | h)
+      · exact Or.inl h
+      · exact Or.inr (Or.inl h)
+      · exact Or.inr (Or.inr h)
+    · rintro (h | h | h)
+      · exact Or.inl (Or.inl h)
+      · exact Or.inl (Or.inr h)
+      · exact Or.inr h
+
+theorem nodup_foldl_keyStep (ci : Bool) (l : List Bytes) (acc : List Bytes) (h : acc.Nodup) :
+    (l.foldl (keyStep ci) acc).Nodup := by
+  induction l generalizing acc with
+  | nil => exact h
+  | cons a as ih =>
+    apply ih
+    unfold keyStep
+    cases ci
+    · simpa using nodup_pushKey _ _ h
+    · simpa using nodup_pushKey _ _ (nodup_pushKey _ _ (nodup_pushKey _ _ h))
+
+/-- every phf key of a variant is an input that variant accepts -/
+theorem keys_accept (d : EnumDef) (v : Variant) (k : Bytes) (h : k ∈ phfKeysOfVariant d v) :
+    accepts d v k = true := by
+  rw [phfKeysOfVariant_eq, mem_foldl_keyStep] at h
+  rcases h with h | ⟨sp, hsp, h⟩
+  · simp at h
+  · unfold accepts
+    simp only [List.any_eq_true]
+    refine ⟨sp, hsp, ?_⟩
+    rcases h with rfl | ⟨hci, rfl | rfl⟩
+    · split; exact eqIgnoreAsciiCase_refl _; simp
+    · simp [hci, eqI_lowerAll]
+    · simp [hci, eqI_upperAll]
+
+/-- every spelling is a phf key -/
+theorem spelling_is_key (d : EnumDef) (v : Variant) (sp : Bytes) (h : sp ∈ serializations d.style v) :
+    sp ∈ phfKeysOfVariant d v := by
+  rw [phfKeysOfVariant_eq, mem_foldl_keyStep]
+  exact Or.inr ⟨sp, h, Or.inl rfl⟩
+
+theorem keys_nodup_variant (d : EnumDef) (v : Variant) : (phfKeysOfVariant d v).Nodup := by
+  rw [phfKeysOfVariant_eq]; exact nodup_foldl_keyStep _ _ _ List.nodup_nil
+
+/-- all phf keys in emission order -/
+def allKeys (d : EnumDef) (vs : List Variant) : List Bytes := vs.flatMap (phfKeysOfVariant d)
+
+theorem phf_arms_keys (d : EnumDef) (h : d.usePhf = true) (vs : List Variant) :
+    (vs.flatMap (phfOfVariant d)).map armKey = allKeys d vs := by
+  induction vs with
+  | nil => rfl
+  | cons v vs ih =>
+    simp only [List.flatMap_cons, List.map_append, allKeys] at ih ⊢
+    rw [ih]
+    congr 1
+    simp [phfOfVariant, h, armKey, Function.comp_def]
+
+theorem hasDupKey_false_iff (l : List Bytes) : hasDupKey l = false ↔ l.Nodup := by
+  induction l with
+  | nil => simp [hasDupKey]
+  | cons a as ih =>
+    simp only [hasDupKey, Bool.or_eq_false_iff, ih, List.nodup_cons]
+    constructor
+    · rintro ⟨h1, h2⟩; exact ⟨by simpa using h1, h2⟩
+    · rintro ⟨h1, h2⟩; exact ⟨by simpa using h1, h2⟩
+
+theorem allKeys_nodup (d : EnumDef) (vs : List Variant) (hnd : vs.Nodup)
+    (hno : ∀ s, ∀ v ∈ vs, ∀ w ∈ vs, accepts d v s = true → accepts d w s = true → v = w) :
+    (allKeys d vs).Nodup := by
+  induction vs with
+  | nil => simp [allKeys]
+  | cons v vs ih =>
+    simp only [allKeys, List.flatMap_cons]
+    rw [List.nodup_cons] at hnd
+    rw [List.nodup_append]
+    refine ⟨keys_nodup_variant d v, ih hnd.2 (fun s a ha b hb => hno s a (by simp [ha]) b (by simp [hb])), ?_⟩
+    intro a ha b hb hab
+    subst hab
+    simp only [List.mem_flatMap] at hb
+    obtain ⟨w, hw, hkw⟩ := hb
+    have := hno a v (by simp) w (by simp [hw]) (keys_accept d v a ha) (keys_accept d w a hkw)
+    subst this
+    exact hnd.1 hw
+
+/-- **`use_phf` never breaks compilation**: under non-overlap no two phf keys coincide, so `phf_map!`
+    accepts the table (variants pairwise different, as rustc demands). -/
+theorem phf_compiles (d : EnumDef) (hphf : d.usePhf = true) (hno : NoOverlap d) (hnd : d.candidates.Nodup) :
+    ∀ e, genFromStr d = .error e → e ≠ .phfDupKey := by
+  intro e he
+  have hk : hasDupKey ((d.candidates.flatMap (phfOfVariant d)).map armKey) = false := by
+    rw [hasDupKey_false_iff]
+    rw [phf_arms_keys d hphf d.candidates]
+    exact allKeys_nodup d d.candidates hnd hno
+  simp only [genFromStr] at he
+  rw [hk] at he
+  simp only [Bool.false_eq_true, ↓reduceIte] at he
+  cases hd : d.defaults with
+  | nil => simp [hd] at he
+  | cons v rest =>
+    cases rest with
+    | nil =>
+      simp only [hd] at he
+      by_cases har : v.fields.arity = 1
+      · simp [har] at he
+      · simp only [har, ↓reduceIte, Except.error.injEq] at he; subst he; simp
+    | cons w rest' =>
+      simp only [hd, Except.error.injEq] at he; subst he; simp
+
+/-- the generated program with `use_phf` (when the generator succeeds) -/
+theorem genFromStr_phf (d : EnumDef) (p : FromStrImpl) (hg : genFromStr d = .ok p) :
+    p.phf = d.candidates.flatMap (phfOfVariant d) ∧ p.arms = d.candidates.flatMap (armsOfVariant d) ∧
+    ((d.defaults = [] ∧ p.fall = (if d.customErr then .errCustom else .errStd)) ∨
+     (∃ v, d.defaults = [v] ∧ v.fields.arity = 1 ∧ p.fall = .okCapture v.ident)) := by
+  simp only [genFromStr] at hg
+  split at hg
+  · cases hg
+  · cases hd : d.defaults with
+    | nil => simp only [hd, Except.ok.injEq] at hg; subst hg; exact ⟨rfl, rfl, Or.inl ⟨rfl, rfl⟩⟩
+    | cons v rest =>
+      cases rest with
+      | nil =>
+        simp only [hd] at hg
+        by_cases har : v.fields.arity = 1
+        · simp only [har, ↓reduceIte, Except.ok.injEq] at hg; subst hg
+          exact ⟨rfl, rfl, Or.inr ⟨v, rfl, har, rfl⟩⟩
+        · simp [har] at hg
+      | cons w rest' => simp [hd] at hg
+
+/-- a hit in the phf map: the key is accepted by the variant that owns it -/
+theorem firstMatch_phf_some (d : EnumDef) (hphf : d.usePhf = true) (vs : List Variant) (s : Bytes) (a : Arm)
+    (h : firstMatch (vs.flatMap (phfOfVariant d)) s = some a) :
+    ∃ v ∈ vs, accepts d v s = true ∧ a.ident = v.ident ∧ a.payload = payloadOf v := by
+  obtain ⟨hmem, hacc⟩ := firstMatch_some_mem h
+  simp only [List.mem_flatMap, phfOfVariant, hphf, ↓reduceIte, List.mem_map] at hmem
+  obtain ⟨v, hv, k, hk, rfl⟩ := hmem
+  simp only [Pat.accepts, beq_iff_eq] at hacc
+  subst hacc
+  exact ⟨v, hv, keys_accept d v s hk, rfl, rfl⟩
+
+/-- a miss in the phf map: the input is not literally any spelling -/
+theorem firstMatch_phf_none (d : EnumDef) (hphf : d.usePhf = true) (vs : List Variant) (s : Bytes)
+    (h : firstMatch (vs.flatMap (phfOfVariant d)) s = none) :
+    ∀ v ∈ vs, s ∉ serializations d.style v := by
+  rw [firstMatch_none_iff] at h
+  intro v hv hs
+  have := h ⟨.lit s, v.ident, payloadOf v⟩ (by
+    simp only [List.mem_flatMap, phfOfVariant, hphf, ↓reduceIte, List.mem_map]
+    exact ⟨v, hv, s, spelling_is_key d v s hs, rfl⟩)
+  simp [Pat.accepts] at this
+
+/-- after a phf miss the remaining guard arms decide exactly like `accepts` -/
+theorem firstMatch_arms_phf (d : EnumDef) (hphf : d.usePhf = true) (v : Variant) (s : Bytes)
+    (hs : s ∉ serializations d.style v) :
+    (firstMatch (armsOfVariant d v) s).map Arm.result =
+      if accepts d v s then some (v.ident, payloadOf v) else none := by
+  unfold armsOfVariant accepts
+  generalize serializations d.style v = l at hs
+  induction l with
+  | nil => simp [firstMatch]
+  | cons x xs ih =>
+    simp only [List.mem_cons, not_or] at hs
+    have ih := ih hs.2
+    cases hc : d.ciOf v
+    · have hx : (s == x) = false := by simpa using hs.1
+      simp only [hc, Bool.false_eq_true, ↓reduceIte, hphf, List.filterMap_cons, List.any_cons, hx,
+        Bool.false_or] at ih ⊢
+      exact ih
+    · simp only [hc, ↓reduceIte, List.filterMap_cons, firstMatch, Pat.accepts, List.any_cons] at ih ⊢
+      by_cases hx : eqIgnoreAsciiCase s x = true
+      · simp [hx, Arm.result]
+      · simp only [hx, Bool.false_eq_true, ↓reduceIte, Bool.false_or]
+        exact ih
+
+theorem firstMatch_flatMap_phf (d : EnumDef) (hphf : d.usePhf = true) (vs : List Variant) (s : Bytes)
+    (hs : ∀ v ∈ vs, s ∉ serializations d.style v) :
+    (firstMatch (vs.flatMap (armsOfVariant d)) s).map Arm.result =
+      (vs.find? (fun v => accepts d v s)).map (fun v => (v.ident, payloadOf v)) := by
+  induction vs with
+  | nil => simp [firstMatch]
+  | cons v vs ih =>
+    simp only [List.flatMap_cons, firstMatch_append, List.find?_cons]
+    have hv := firstMatch_arms_phf d hphf v s (hs v (by simp))
+    have ih := ih (fun w hw => hs w (by simp [hw]))
+    cases hm : firstMatch (armsOfVariant d v) s with
+    | some a =>
+      rw [hm] at hv
+      by_cases ha : accepts d v s = true <;> simp_all
+    | none =>
+      rw [hm] at hv
+      by_cases ha : accepts d v s = true <;> simp_all
+
+/-- **With `use_phf` the parser computes the same function of (definition, input) as without.**
+    Stated against the same declarative right-hand side as `parse_first_match` (C01). -/
+theorem parse_first_match_phf (d : EnumDef) (hphf : d.usePhf = true) (hno : NoOverlap d)
+    (p : FromStrImpl) (hg : genFromStr d = .ok p) (s : Bytes) :
+    parse d s = .ok (match d.candidates.find? (fun v => accepts d v s) with
+                     | some v => .ok v.ident (payloadOf v)
+                     | none => p.fall.eval s) := by
+  obtain ⟨hp, ha, _⟩ := genFromStr_phf d p hg
+  unfold parse
+  rw [hg]
+  simp only [Except.map, FromStrImpl.eval, hp, ha]
+  cases h1 : firstMatch (d.candidates.flatMap (phfOfVariant d)) s with
+  | some a =>
+    obtain ⟨v, hv, hacc, hi, hpl⟩ := firstMatch_phf_some d hphf d.candidates s a h1
+    cases hc : d.candidates.find? (fun v => accepts d v s) with
+    | none =>
+      have := List.find?_eq_none.1 hc v hv
+      simp [hacc] at this
+    | some w =>
+      have hw := List.mem_of_find?_eq_some hc
+      have haw : accepts d w s = true := by simpa using List.find?_some hc
+      have := hno s v hv w hw hacc haw
+      subst this
+      simp [hi, hpl]
+  | none =>
+    have hs := firstMatch_phf_none d hphf d.candidates s h1
+    have hfm := firstMatch_flatMap_phf d hphf d.candidates s hs
+    cases hf : firstMatch (d.candidates.flatMap (armsOfVariant d)) s with
+    | some a =>
+      rw [hf] at hfm
+      cases hc : d.candidates.find? (fun v => accepts d v s) with
+      | some v => rw [hc] at hfm; simp [Arm.result] at hfm; simp [hfm]
+      | none => rw [hc] at hfm; simp at hfm
+    | none =>
+      rw [hf] at hfm
+      cases hc : d.candidates.find? (fun v => accepts d v s) with
+      | some v => rw [hc] at hfm; simp at hfm
+      | none => rfl
+
+/-- **phf parser = plain parser, for every input.** -/
+theorem phf_same_result (d : EnumDef) (hno : NoOverlap { d with usePhf := false })
+    (p1 p0 : FromStrImpl) (h1 : genFromStr { d with usePhf := true } = .ok p1)
+    (h0 : genFromStr { d with usePhf := false } = .ok p0) (s : Bytes) :
+    parse { d with usePhf := true } s = parse { d with usePhf := false } s := by
+  have hno1 : NoOverlap { d with usePhf := true } := hno
+  rw [parse_first_match_phf { d with usePhf := true } rfl hno1 p1 h1 s,
+      parse_first_match { d with usePhf := false } rfl p0 h0 s]
+  have hfall : p1.fall = p0.fall := by
+    obtain ⟨_, _, hf1⟩ := genFromStr_phf _ p1 h1
+    obtain ⟨_, _, hf0⟩ := genFromStr_phf _ p0 h0
+    rcases hf1 with ⟨a1, b1⟩ | ⟨v1, a1, _, b1⟩ <;> rcases hf0 with ⟨a0, b0⟩ | ⟨v0, a0, _, b0⟩
+    · rw [b1, b0]
+    · have : ({ d with usePhf := true } : EnumDef).defaults = ({ d with usePhf := false } : EnumDef).defaults := rfl
+      rw [a1, a0] at this; cases this
+    · have : ({ d with usePhf := true } : EnumDef).defaults = ({ d with usePhf := false } : EnumDef).defaults := rfl
+      rw [a1, a0] at this; cases this
+    · have : ({ d with usePhf := true } : EnumDef).defaults = ({ d with usePhf := false } : EnumDef).defaults := rfl
+      rw [a1, a0] at this; cases this; rw [b1, b0]
+  rw [hfall]
+  rfl
+
+/-- the generator succeeds with `use_phf` whenever it succeeds without (same error checks, and the
+    key table has no duplicate) -/
+theorem phf_gen_ok (d : EnumDef) (hno : NoOverlap { d with usePhf := false })
+    (hnd : d.candidates.Nodup) (p0 : FromStrImpl) (h0 : genFromStr { d with usePhf := false } = .ok p0) :
+    ∃ p1, genFromStr { d with usePhf := true } = .ok p1 := by
+  cases h1 : genFromStr { d with usePhf := true } with
+  | ok p1 => exact ⟨p1, rfl⟩
+  | error e =>
+    exfalso
+    have hne := phf_compiles { d with usePhf := true } rfl hno hnd e h1
+    obtain ⟨_, _, hf0⟩ := genFromStr_phf _ p0 h0
+    have hd : ({ d with usePhf := true } : EnumDef).defaults = ({ d with usePhf := false } : EnumDef).defaults := rfl
+    simp only [genFromStr] at h1
+    split at h1
+    · simp only [Except.error.injEq] at h1; exact hne h1.symm
+    · rcases hf0 with ⟨a0, _⟩ | ⟨v0, a0, har, _⟩
+      · rw [hd, a0] at h1; simp at h1
+      · rw [hd, a0] at h1; simp [har] at h1
+
+/-! non-vacuity: the F3 witness now compiles and parses identically -/
+def f3Enum : EnumDef :=
+  { variants := [{ ident := [114, 101, 100], ci := some true }, { ident := [66, 108, 117, 101] }] }
+example : noOverlapB f3Enum = true := by decide
+example : ∃ p, genFromStr { f3Enum with usePhf := true } = .ok p := ⟨_, rfl⟩
+example : parse { f3Enum with usePhf := true } [82, 69, 68] = parse f3Enum [82, 69, 68] := by rfl
+
 end Strum
